@@ -205,3 +205,147 @@ func (g *gctx) genUDF() stmt {
 	sql := "SELECT id, g, h, " + strings.Join(fns, ", ") + " FROM t1" + g.where("", 20)
 	return stmt{SQL: sql, Kind: "udf_analytic", Sel: true}
 }
+
+// ---------------------------------------------------------------------
+// REPLACE with a USING key that is NOT unique in the target: every row of the
+// target carrying the key must be replaced, for every cpu. The target is t1
+// (or a temporary copy of it), the key is g, h or (g, h), whose values occur
+// all over the table, i.e. in the chunks of different workers.
+
+// crossChunk: some given key occurs in both halves of t1 as generated (the two
+// chunks of cpu=2) and t1 is large enough to be split.
+func (g *gctx) crossChunk(keyOf func(i int) string, given map[string]bool) bool {
+	n := len(g.gs)
+	if n < 2*query.MinimumRequiredPerCPUCore {
+		return false
+	}
+	lo, hi := map[string]bool{}, map[string]bool{}
+	for i := 0; i < n; i++ {
+		k := keyOf(i)
+		if !given[k] {
+			continue
+		}
+		if i < n/2 {
+			lo[k] = true
+		} else {
+			hi[k] = true
+		}
+	}
+	for k := range lo {
+		if hi[k] {
+			return true
+		}
+	}
+	return false
+}
+
+func dupTags(cross, givenDup, temp bool) []string {
+	tags := []string{"dupkey:same_chunk_or_small"}
+	if cross {
+		tags = []string{"dupkey:cross_chunk"}
+	}
+	if givenDup {
+		tags = append(tags, "dupkey:given_records_repeat_key")
+	}
+	if temp {
+		tags = append(tags, "dupkey:temp_table")
+	} else {
+		tags = append(tags, "dupkey:file")
+	}
+	return tags
+}
+
+// replaceTarget returns the target table name; with temp it first declares a temporary copy of t1.
+func (g *gctx) replaceTarget(temp bool) string {
+	if !temp {
+		return "t1"
+	}
+	name := fmt.Sprintf("tmp%d", g.seq)
+	g.add(stmt{SQL: "DECLARE " + name + " VIEW AS SELECT id, g, h, v, s FROM t1", Kind: "declare"})
+	return name
+}
+
+func (g *gctx) genReplaceDupKeyValues() {
+	temp := g.pct("dupTemp", 30)
+	twoKeys := g.pct("dupTwoKeys", 35)
+	n := g.rng("nGiven", 2, 6)
+	given := map[string]bool{}
+	givenDup := false
+	var rows []string
+	pg, ph := 0, 0
+	for i := 0; i < n; i++ {
+		gv, hv := g.rng("gk", 0, g.gDom-1), g.rng("hk", 0, 3)
+		if g.pct("unmatchedKey", 15) {
+			gv = g.gDom + 5 + i
+		}
+		if i > 0 && g.pct("repeatKey", 25) {
+			gv, hv = pg, ph
+		}
+		pg, ph = gv, hv
+		var key string
+		if twoKeys {
+			key = fmt.Sprintf("%d|%d", gv, hv)
+			rows = append(rows, fmt.Sprintf("(%d, %d, %d, 'R%d')", gv, hv, 100+i, i))
+		} else {
+			key = fmt.Sprint(gv)
+			rows = append(rows, fmt.Sprintf("(%d, 'R%d')", gv, i))
+		}
+		if given[key] {
+			givenDup = true
+		}
+		given[key] = true
+	}
+	keyOf := func(i int) string { return g.gs[i] }
+	cols, using := "(g, s)", "(g)"
+	if twoKeys {
+		keyOf = func(i int) string { return g.gs[i] + "|" + g.hs[i] }
+		cols, using = "(g, h, v, s)", "(g, h)"
+	}
+	tags := dupTags(g.crossChunk(keyOf, given), givenDup, temp)
+	target := g.replaceTarget(temp)
+	g.add(stmt{SQL: fmt.Sprintf("REPLACE INTO %s %s USING %s VALUES %s", target, cols, using, strings.Join(rows, ", ")), Kind: "replace_dupkey_values", Tags: tags})
+	g.add(stmt{SQL: "SELECT * FROM " + target, Kind: "probe", Sel: true})
+}
+
+func (g *gctx) genReplaceDupKeySelect() {
+	temp := g.pct("dupTemp", 30)
+	all := func(string) bool { return true }
+	ltN2 := func(k string) bool {
+		var v int
+		_, err := fmt.Sscan(k, &v)
+		return err == nil && v < g.c.N2
+	}
+	var sql string
+	keyOf := func(i int) string { return g.gs[i] }
+	eligible := all
+	givenDup := false
+	target := g.replaceTarget(temp)
+	switch fw.Uniform(g.t, "dupSelShape", 5) {
+	case 0:
+		// the given records repeat keys as soon as t2 has more than four rows
+		sql = "REPLACE INTO " + target + " (h, s) USING (h) SELECT w, x FROM t2"
+		keyOf = func(i int) string { return g.hs[i] }
+		givenDup = g.c.N2 > 4
+	case 1:
+		sql = "REPLACE INTO " + target + " (g, h, s) USING (g, h) SELECT k, w, x || '@' FROM t2"
+		eligible = ltN2
+	case 2:
+		sql = "REPLACE INTO " + target + " (g, s) USING (g) SELECT g, MAX(s) || '*' FROM t1 WHERE g IS NOT NULL GROUP BY g ORDER BY g"
+	case 3:
+		sql = "REPLACE INTO " + target + " (g, v) USING (g) SELECT k, w FROM t2 WHERE k % 2 = 0"
+		eligible = ltN2
+	default:
+		sql = "REPLACE INTO " + target + " (h, v, s) USING (h) SELECT h, v, s FROM t1 WHERE id <= 12"
+		keyOf = func(i int) string { return g.hs[i] }
+		givenDup = true
+	}
+	given := map[string]bool{}
+	for i := range g.gs {
+		if k := keyOf(i); k != "" && eligible(k) {
+			given[k] = true
+		}
+	}
+	tags := dupTags(g.crossChunk(keyOf, given), givenDup, temp)
+	g.add(stmt{SQL: sql, Kind: "replace_dupkey_select", Tags: tags})
+	g.add(stmt{SQL: "SELECT * FROM " + target, Kind: "probe", Sel: true})
+}
